@@ -48,7 +48,7 @@ try:
         result["demo_fails_with_change"] = not ok1
         result["demo_detail_with_change"] = d1
         # store the patch relative to the current HEAD
-        diff = sh("git diff").stdout
+        diff = sh("git diff HEAD").stdout
     else:
         result["apply_error"] = ap.stdout[-500:]
     result["confirmed"] = bool(result.get("demo_passes_without_change") and result.get("suite_passes_with_change") and result.get("demo_fails_with_change"))
